@@ -15,6 +15,21 @@ class DType:
         self.name = name
 
 
+def dtype_attr(dt, name):
+    """attributes of a NumPy dtype object (integer and floating dtypes of fixed width)"""
+    bits = {"int8": 8, "uint8": 8, "int16": 16, "uint16": 16, "int32": 32, "uint32": 32, "int64": 64, "uint64": 64,
+            "float32": 32, "float64": 64, "bool": 8}.get(dt.name)
+    if bits is None:
+        raise Unsupported(f"attribute {name} of dtype {dt.name}")
+    if name == "itemsize":
+        return bits // 8
+    if name == "name":
+        return dt.name
+    if name == "kind":
+        return "b" if dt.name == "bool" else ("f" if dt.name.startswith("float") else ("u" if dt.name.startswith("u") else "i"))
+    raise Unsupported(f"attribute {name} of a dtype")
+
+
 def elem_value(I, arr, term):
     """wrap a selected element; elements of a typed array are in range"""
     if arr.ctype is None:
@@ -235,8 +250,21 @@ def arr_attr(I, arr, name):
                 v = SymArr(arr.name + "_bool", "bool", arr.shape, arr=arr.arr, readonly=True)
                 v.bool_of = arr
                 return v
-            raise Unsupported("ndarray.astype to a non-bool dtype")
+            name = dt.name if isinstance(dt, DType) else None
+            if name and is_int_ctype(name) and arr.ctype and is_int_ctype(arr.ctype) and len(arr.shape) == 1:
+                # integer -> integer: same length, every element converted as in C (wraps when out of range)
+                q = z3.Int("q!cast")
+                t = z3.Lambda([q], _wrap_to(name, z3.Select(arr.arr, q)))
+                I_.ctx.trusted.add("ndarray.astype between integer dtypes: element-wise C conversion (two's complement wrap), a new array")
+                return SymArr(arr.name + "_as_" + name, name, arr.shape, arr=t)
+            raise Unsupported("ndarray.astype to this dtype")
         return Native("ndarray.astype", astype)
+    if name in ("min", "max"):
+        def extreme(I_, a, k, which=name):
+            if a or k:
+                raise Unsupported(f"ndarray.{which} with arguments")
+            return _reduce_extreme(I_, arr, which)
+        return Native("ndarray." + name, extreme)
     if name == "base":
         return None
     if name == "__len__":
@@ -291,7 +319,58 @@ def arr_binop(I, o, a, b):
 
 
 def arr_compare(I, o, a, b):
-    raise Unsupported("array comparison " + o)
+    """element-wise comparison of a 1-d integer array with an integer scalar: a boolean array whose
+    element q is the (exact, mathematical) comparison of element q -- NumPy >= 2 compares integer arrays
+    with Python integers exactly, also when the scalar lies outside the array's dtype"""
+    flip = {"<": ">", "<=": ">=", ">": "<", ">=": "<=", "==": "==", "!=": "!="}
+    if not isinstance(a, SymArr):
+        a, b, o = b, a, flip[o]
+    if isinstance(b, SymArr) or len(a.shape) != 1 or (a.ctype and is_float_ctype(a.ctype)) or o not in flip:
+        raise Unsupported("array comparison " + o)
+    sc = I.unC(b)
+    if isinstance(sc, bool) or not isinstance(sc, (int, z3.ArithRef)) or (isinstance(sc, z3.ArithRef) and not sc.is_int()):
+        raise Unsupported("array comparison with a non-integer scalar")
+    sc = zint(sc)
+    base = a.arr
+
+    def pred(q):
+        x = z3.Select(base, q)
+        return {"<": x < sc, "<=": x <= sc, ">": x > sc, ">=": x >= sc, "==": x == sc, "!=": x != sc}[o]
+    q = z3.Int("q!cmp")
+    r = SymArr(a.name + "_cmp", "bool", a.shape, arr=z3.Lambda([q], z3.If(pred(q), 1, 0)), readonly=True)
+    r.pred = pred
+    I.ctx.trusted.add("NumPy compares an integer array with a Python integer exactly (element-wise, mathematical order)")
+    return r
+
+
+def _reduce_extreme(I, arr, which):
+    """ndarray.min() / max(): an element of the array that bounds all others"""
+    if not isinstance(arr, SymArr) or len(arr.shape) != 1:
+        raise Unsupported(f"np.{which} of this operand")
+    n = zint(arr.shape[0])
+    if I.ctx.branch(n <= 0):
+        I.throw("ValueError", f"zero-size array to reduction operation {which}imum which has no identity")
+    nc = simp(n)
+    if isinstance(nc, int) and nc <= 4096:
+        vals = [simp(z3.Select(arr.arr, q)) for q in range(nc)]
+        if all(isinstance(x, int) for x in vals):
+            v = max(vals) if which == "max" else min(vals)
+            return CV(arr.ctype, v) if arr.ctype else v
+    r = I.ctx.fresh_int("np" + which)
+    w = I.ctx.fresh_int("np" + which + "_at")
+    q = z3.Int("q!" + which)
+    sel = z3.Select(arr.arr, q)
+    I.ctx.assume(z3.ForAll([q], z3.Implies(z3.And(q >= 0, q < n), sel <= r if which == "max" else sel >= r)))
+    I.ctx.assume(z3.And(w >= 0, w < n, z3.Select(arr.arr, w) == r))
+    I.ctx.trusted.add(f"np.{which}: an element of the array that no element " + ("exceeds" if which == "max" else "is below"))
+    return CV(arr.ctype, r) if arr.ctype else r
+
+
+def _wrap_to(ctype, x):
+    """C conversion of an integer to an integer type of another width (two's complement wrap)"""
+    lo, hi = int_range(ctype)
+    span = hi - lo + 1
+    return (x - lo) % span + lo
 
 
 def make_module(I):
@@ -351,6 +430,12 @@ def make_module(I):
         o.attrs = {"min": lo, "max": hi}
         return o
     ns["iinfo"] = Native("np.iinfo", _iinfo)
+
+    def _dtype(I_, a, k):
+        if len(a) == 1 and isinstance(a[0], DType) and not k:
+            return a[0]
+        raise Unsupported("np.dtype of this operand")
+    ns["dtype"] = Native("np.dtype", _dtype)
     ns["array"] = Native("np.array", _array)
     ns["asarray"] = Native("np.asarray", _asarray)
 
@@ -420,6 +505,27 @@ def make_module(I):
         return CV(arr.ctype, r) if arr.ctype else r
     ns["max"] = Native("np.max", _max)
     ns["amax"] = ns["max"]
+
+    def _min(I_, a, k):
+        if k.get("axis") is not None:
+            raise Unsupported("np.min with axis")
+        return _reduce_extreme(I_, a[0], "min")
+    ns["min"] = Native("np.min", _min)
+    ns["amin"] = ns["min"]
+
+    def _all(I_, a, k, every=True):
+        x = a[0]
+        if isinstance(x, bool) or z3.is_bool(x):
+            return x
+        if not (isinstance(x, SymArr) and getattr(x, "pred", None) is not None) or k or len(a) > 1:
+            raise Unsupported("np.all / np.any of this operand")
+        n = zint(x.shape[0])
+        q = z3.Int("q!all")
+        if every:
+            return z3.ForAll([q], z3.Implies(z3.And(q >= 0, q < n), x.pred(q)))
+        return z3.Exists([q], z3.And(q >= 0, q < n, x.pred(q)))
+    ns["all"] = Native("np.all", _all)
+    ns["any"] = Native("np.any", lambda I_, a, k: _all(I_, a, k, every=False))
 
     def _append(I_, a, k):
         x, y = a[0], a[1]
